@@ -142,6 +142,14 @@ func setECS(
 				edns.SourceScope = scope
 				edns.Address = ip
 
+				// Make sure that no other subnet options, e.g. the ones sent by
+				// the client, remain in the message.
+				opt.Option = slices.DeleteFunc(opt.Option, func(other dns.EDNS0) (ok bool) {
+					otherSubnet, ok := other.(*dns.EDNS0_SUBNET)
+
+					return ok && otherSubnet != edns
+				})
+
 				return nil
 			}
 		}
